@@ -90,3 +90,17 @@ Definition site_topic_open_info := find_site "ReceiverSecretKey::open_topic_key"
 (** * C38: AFC unidirectional channels (afc/uni.rs) *)
 Definition site_uni_info := find_site "UniChannel::info" "info_struct:Info" framings_afc_uni.
 Definition uni_info_input (e : env) : bytes := info_struct_input site_uni_info e.
+
+(** * C37: APQ topic keys (apq.rs) *)
+Definition site_topic_msg_seal_ad := find_site "TopicKey::seal_message" "tuple_hash" framings_apq.
+Definition site_topic_msg_open_ad := find_site "TopicKey::open_message" "tuple_hash" framings_apq.
+Definition site_topic_extract := find_site "TopicKey::derive_key" "labeled_extract" framings_apq.
+Definition site_topic_expand := find_site "TopicKey::derive_key" "labeled_expand" framings_apq.
+(** AD of [TopicKey::seal_message] / [open_message]:
+    H("apq msg", suite, version, topic, sender enc key id, sender sign key id) *)
+Definition topic_msg_seal_ad_input (oids : list bytes) (e : env) : bytes :=
+  cs_tuple_input oids (site_domain site_topic_msg_seal_ad) (map e (site_args site_topic_msg_seal_ad)).
+Definition topic_msg_open_ad_input (oids : list bytes) (e : env) : bytes :=
+  cs_tuple_input oids (site_domain site_topic_msg_open_ad) (map e (site_args site_topic_msg_open_ad)).
+(** the info arguments of [TopicKey::derive_key]'s labeled expand (without the leading "prk=" entry) *)
+Definition topic_expand_info_args : list string := tl (site_args site_topic_expand).
